@@ -1,6 +1,7 @@
 (* C14 -- validating lazy APIs never hand out malformed fragments. Statements only. *)
 From Coq Require Import List Bool Arith NArith.
 From SonicV Require Import Spec.Ref Model.SkipStr Model.SkipNum Model.SkipAll Model.Skip Model.RefSound Model.IterSound Model.IterObjSound.
+From SonicV Require Model.RawSpan Model.ValueEdges.
 From SonicV Require Model.GetLookup.
 Import ListNotations.
 Open Scope N_scope.
@@ -35,3 +36,8 @@ Proof. intros l k a b [H|H]; [exact (array_iterator_items_located l k a b H)|exa
 Theorem reference_get_complete_on_wf : forall l v a b p a' b' v', ref_text true l = Some (v, a, b) ->
   lookup v a b p = Found a' b' v' -> ref_get l p = Some (a', b').
 Proof. exact GetLookup.get_is_lookup. Qed.
+
+(* the bytes the reference get hands out are one well-formed value with no whitespace at its edges *)
+Theorem reference_get_hands_out_one_value : forall l p a b, ref_get l p = Some (a, b) ->
+  Value (RawSpan.sub l a b) /\ ValueEdges.edge_ok (RawSpan.sub l a b).
+Proof. exact RawSpan.reference_get_span_cuts_a_value. Qed.
